@@ -12,7 +12,10 @@
                              the repaired code (fixes/C19-delete-releases-later-owners-index.diff);
               dfix = false : the pinned code, unconditional index delete in DeleteMapping and in the rollbacks.
               atomic_incr = true : CounterStore.Incr is one atomic action (memory.Storage, Redis);
-              atomic_incr = false: hybrid.Storage.Incr = cache.Get then cache.Set (two actions).
+              atomic_incr = false: hybrid.Storage.Incr as it was before d88dca0 = cache.Get then cache.Set (two actions).
+              cfix = true : generateMappingID first creates the counter key without a deadline (SetNX, ttl 0), then Incr
+                            (fixes/C19-id-counter-never-expires.diff); cfix = false: Incr alone — the counter store gives a
+                            counter it creates the 24 h default data TTL, after which ids restart at 1.
    `own` and `log` are ghost fields (never read by the step function's decisions).
    Definitions only. *)
 From TX Require Export Base.Threads.
@@ -85,7 +88,9 @@ Fixpoint holder (n : name) (l : list ev) : option id :=     (* newest first *)
   end.
 
 Record shared := {
-  next : N;                              (* tunnox:http_domain:next_id *)
+  next : N;                              (* tunnox:http_domain:next_id (0 when the key does not exist) *)
+  cexists : bool;                        (* the counter key exists *)
+  cttl : bool;                           (* ... and carries a deadline *)
   idx : name -> option id;               (* tunnox:http_domain:index:<full domain> *)
   recs : id -> option mrec;              (* tunnox:http_domain:mapping:<id> *)
   lists : client -> list id;             (* tunnox:http_domain:client:<client> *)
@@ -110,6 +115,7 @@ Inductive rmstage := RmGuard | RmGetIdx | RmDelIdx | RmDelRec | RmRelease.
 
 Inductive pcT :=
 | Idle
+| PCIncr (sub base : name) (tgt : N)                   (* counter key ensured, Incr pending *)
 | PCIncrW (v : N) (sub base : name) (tgt : N)                 (* non-atomic Incr: value read, write pending *)
 | PCSetNX (i : id) (n : name) (tgt : N)
 | PCSetRec (i : id) (n : name) (tgt : N)
@@ -137,6 +143,7 @@ Inductive act :=
 | AIncr (c : client) (n : name)
 | ASetNext (v : N) (c : client) (n : name)      (* non-atomic Incr: write v, ghost-own v *)
 | AReset
+| AEnsure                                      (* SetNX(counter key, 0, never expires) *)
 | AClaim (n : name) (i : id) (c : client)
 | AWrite (i : id) (r : mrec)
 | AAppend (c : client) (i : id)
@@ -152,36 +159,44 @@ Definition exec (a : act) (s : shared) : shared :=
   match a with
   | ANone => s
   | AIncr c n =>
-      {| next := next s + 1; idx := idx s; recs := recs s; lists := lists s; rguard := rguard s;
+      {| next := next s + 1; cexists := true; cttl := (if cexists s then cttl s else true); idx := idx s; recs := recs s; lists := lists s; rguard := rguard s;
          own := upd_n (own s) (next s + 1) (Some (c, n)); log := log s |}
   | ASetNext v c n =>
-      {| next := v; idx := idx s; recs := recs s; lists := lists s; rguard := rguard s;
+      {| next := v; cexists := true; cttl := true; idx := idx s; recs := recs s; lists := lists s; rguard := rguard s;
          own := upd_n (own s) v (Some (c, n)); log := log s |}
   | AReset =>
-      {| next := 0; idx := idx s; recs := recs s; lists := lists s; rguard := rguard s; own := own s; log := log s |}
+      (* the clock passes every deadline of the counter key: it vanishes only if it has one *)
+      if cexists s && cttl s
+      then {| next := 0; cexists := false; cttl := false; idx := idx s; recs := recs s; lists := lists s; rguard := rguard s;
+              own := own s; log := log s |}
+      else s
+  | AEnsure =>
+      if cexists s then s
+      else {| next := next s; cexists := true; cttl := false; idx := idx s; recs := recs s; lists := lists s; rguard := rguard s;
+              own := own s; log := log s |}
   | AClaim n i c =>
-      {| next := next s; idx := upd_name (idx s) n (Some i); recs := recs s; lists := lists s; rguard := rguard s;
+      {| next := next s; cexists := cexists s; cttl := cttl s; idx := upd_name (idx s) n (Some i); recs := recs s; lists := lists s; rguard := rguard s;
          own := own s; log := EvClaim n i c :: log s |}
   | AWrite i r =>
-      {| next := next s; idx := idx s; recs := upd_n (recs s) i (Some r); lists := lists s; rguard := rguard s;
+      {| next := next s; cexists := cexists s; cttl := cttl s; idx := idx s; recs := upd_n (recs s) i (Some r); lists := lists s; rguard := rguard s;
          own := own s; log := EvWrite i (r_client r) (r_target r) :: log s |}
   | AAppend c i =>
-      {| next := next s; idx := idx s; recs := recs s; lists := upd_n (lists s) c (lists s c ++ [i]); rguard := rguard s;
+      {| next := next s; cexists := cexists s; cttl := cttl s; idx := idx s; recs := recs s; lists := upd_n (lists s) c (lists s c ++ [i]); rguard := rguard s;
          own := own s; log := log s |}
   | ARemove c i =>
-      {| next := next s; idx := idx s; recs := recs s; lists := upd_n (lists s) c (remove_id i (lists s c)); rguard := rguard s;
+      {| next := next s; cexists := cexists s; cttl := cttl s; idx := idx s; recs := recs s; lists := upd_n (lists s) c (remove_id i (lists s c)); rguard := rguard s;
          own := own s; log := log s |}
   | ATake i =>
-      {| next := next s; idx := idx s; recs := recs s; lists := lists s; rguard := upd_n (rguard s) i true;
+      {| next := next s; cexists := cexists s; cttl := cttl s; idx := idx s; recs := recs s; lists := lists s; rguard := upd_n (rguard s) i true;
          own := own s; log := log s |}
   | ADrop i =>
-      {| next := next s; idx := idx s; recs := recs s; lists := lists s; rguard := upd_n (rguard s) i false;
+      {| next := next s; cexists := cexists s; cttl := cttl s; idx := idx s; recs := recs s; lists := lists s; rguard := upd_n (rguard s) i false;
          own := own s; log := log s |}
   | AUnidx n i c =>
-      {| next := next s; idx := upd_name (idx s) n None; recs := recs s; lists := lists s; rguard := rguard s;
+      {| next := next s; cexists := cexists s; cttl := cttl s; idx := upd_name (idx s) n None; recs := recs s; lists := lists s; rguard := rguard s;
          own := own s; log := EvRelease n i c :: log s |}
   | ADelRec i =>
-      {| next := next s; idx := idx s; recs := upd_n (recs s) i None; lists := lists s; rguard := rguard s;
+      {| next := next s; cexists := cexists s; cttl := cttl s; idx := idx s; recs := upd_n (recs s) i None; lists := lists s; rguard := rguard s;
          own := own s; log := log s |}
   end.
 
@@ -204,6 +219,7 @@ Definition resolve (t : thr) (r : idref) : id :=
 Section D.
   Variable dfix : bool.                         (* repaired removal path *)
   Variable atomic_incr : bool.
+  Variable cfix : bool.                         (* the counter key is created without a deadline before Incr *)
   Variables reg cloud : name -> option pmap.    (* DomainRegistry / CloudControl contents (static environment) *)
 
   (* status checks shared by stages 2 and 3 of lookupMapping *)
@@ -243,6 +259,16 @@ Section D.
   Definition rollback_after_append (t : thr) (fs : list bool) (i : id) (n : name) : thr :=
     if dfix then goto t fs (PCRm KRoll i n RmGuard None) else goto t fs (PCRbRec i n).
 
+  (* CounterStore.Incr *)
+  Definition incr_step (t : thr) (fs : list bool) (f : bool) (s : shared) (sub base : name) (tgt : N) : thr * act :=
+    if atomic_incr then
+      if f then (finish t fs (RErr EStorage), ANone)
+      else (after_incr t fs (next s + 1) sub base tgt, AIncr (cl t) (full_domain sub base))
+    else
+      (* the former hybrid.Incr: cache.Get *)
+      if f then (finish t fs (RErr EStorage), ANone)
+      else (goto t fs (PCIncrW (next s) sub base tgt), ANone).
+
   Definition decide (t : thr) (s : shared) : thr * act :=
     let '(f, fs) := next_fault t in
     match pc t with
@@ -250,13 +276,10 @@ Section D.
         match ops t with
         | [] => (t, ANone)
         | OCreate sub base tgt :: _ =>
-            if atomic_incr then
-              if f then (finish t fs (RErr EStorage), ANone)
-              else (after_incr t fs (next s + 1) sub base tgt, AIncr (cl t) (full_domain sub base))
-            else
-              (* hybrid.Incr: cache.Get *)
-              if f then (finish t fs (RErr EStorage), ANone)
-              else (goto t fs (PCIncrW (next s) sub base tgt), ANone)
+            if cfix then
+              (* SetNX(counter key, 0, ttl 0) *)
+              if f then (finish t fs (RErr EStorage), ANone) else (goto t fs (PCIncr sub base tgt), AEnsure)
+            else incr_step t fs f s sub base tgt
         | ODelete r :: _ =>
             let i := resolve t r in
             if f then (finish t fs (RErr EStorage), ANone)
@@ -286,6 +309,7 @@ Section D.
                  end
         | OResetCounter :: _ => (finish t fs RReset, AReset)
         end
+    | PCIncr sub base tgt => incr_step t fs f s sub base tgt
     | PCIncrW v sub base tgt =>
         (* hybrid.Incr: cache.Set(count+1) *)
         if f then (finish t fs (RErr EStorage), ANone)
@@ -374,7 +398,7 @@ Section D.
 End D.
 
 Definition empty_store : shared :=
-  {| next := 0; idx := fun _ => None; recs := fun _ => None; lists := fun _ => []; rguard := fun _ => false;
+  {| next := 0; cexists := false; cttl := false; idx := fun _ => None; recs := fun _ => None; lists := fun _ => []; rguard := fun _ => false;
      own := fun _ => None; log := [] |}.
 Definition init_thr (c : client) (o : list op) (f : list bool) : thr :=
   {| cl := c; ops := o; faults := f; pc := Idle; held := []; out := [] |}.
